@@ -131,7 +131,30 @@ func (p *PF) step(fn *ssa.Function, in ssa.Instruction, s StateSet) StateSet {
 				p.preCall = map[*ssa.Call]StateSet{}
 			}
 			p.preCall[x] |= s
-			s = p.applySummary(callee, s)
+			if spec := constBoolArgs(callee, &x.Call); spec != nil && len(activeParamFlags) < 4 {
+				// a shared implementation selected by a constant flag (g.shutdown(true)): analysed for this call's flag value
+				saved := activeParamFlags
+				merged := map[*ssa.Parameter]bool{}
+				for k, v := range saved {
+					merged[k] = v
+				}
+				for k, v := range spec {
+					merged[k] = v
+				}
+				activeParamFlags = merged
+				sub := &PF{N: p.N, Instr: p.Instr, Edge: p.Edge, InScope: p.InScope, DeepVisit: p.DeepVisit}
+				if p.DeepVisit {
+					sub.Visit = p.Visit
+				}
+				var out StateSet
+				for _, e := range sub.Exits(callee, s) {
+					out |= e.States
+				}
+				activeParamFlags = saved
+				s = out
+			} else {
+				s = p.applySummary(callee, s)
+			}
 		}
 	case *ssa.RunDefers:
 		// apply deferred in-scope callees, LIFO, for defers that dominate this point
@@ -271,7 +294,7 @@ func (p *PF) run(fn *ssa.Function, entry StateSet, visit func(fn *ssa.Function, 
 		for idx, succ := range b.Succs {
 			es := s
 			// a branch on the flag of the active specialisation (variants.go): only the live side is followed
-			if (activeSpec != nil || len(activeCellFlags) > 0) && len(b.Instrs) > 0 {
+			if (activeSpec != nil || len(activeCellFlags) > 0 || len(activeParamFlags) > 0) && len(b.Instrs) > 0 {
 				if iff, isIf := b.Instrs[len(b.Instrs)-1].(*ssa.If); isIf {
 					if v, ok := specFlagValue(iff.Cond); ok && v != (idx == 0) {
 						continue
@@ -716,4 +739,25 @@ func isCtxErrAfterDone(v ssa.Value) bool {
 		}
 	}
 	return false
+}
+
+
+// constBoolArgs: the boolean parameters of callee that this call binds to constants.
+func constBoolArgs(callee *ssa.Function, cc *ssa.CallCommon) map[*ssa.Parameter]bool {
+	var out map[*ssa.Parameter]bool
+	o := origin(callee)
+	for i, a := range cc.Args {
+		if i >= len(o.Params) {
+			break
+		}
+		k, ok := a.(*ssa.Const)
+		if !ok || k.Value == nil || k.Value.Kind() != constant.Bool {
+			continue
+		}
+		if out == nil {
+			out = map[*ssa.Parameter]bool{}
+		}
+		out[o.Params[i]] = constant.BoolVal(k.Value)
+	}
+	return out
 }
